@@ -42,6 +42,19 @@ fn main() {
         "tree" => cmd_tree(&args),
         "cfgrun" => cmd_cfgrun(&args),
         #[cfg(not(feature = "stateless"))]
+        "witness" => {
+            let (mut cases, mut out) = (Vec::new(), Vec::new());
+            ops_exec::run_witness(arg(&args, "--seed").unwrap_or("1").parse().unwrap(), arg(&args, "--count").unwrap_or("40").parse().unwrap(), &mut cases, &mut out);
+            write_ndjson(arg(&args, "--cases").expect("--cases"), &cases);
+            write_ndjson(arg(&args, "--out").expect("--out"), &out);
+        }
+        #[cfg(not(feature = "stateless"))]
+        "bundled" => {
+            let mut out = Vec::new();
+            ops_exec::run_bundled(arg(&args, "--seed").unwrap_or("1").parse().unwrap(), &mut out);
+            write_ndjson(arg(&args, "--out").expect("--out"), &out);
+        }
+        #[cfg(not(feature = "stateless"))]
         "hashes" => {
             let mut out = Vec::new();
             hash_exec::run(arg(&args, "--seed").unwrap_or("1").parse().unwrap(), arg(&args, "--consts").expect("--consts"),
